@@ -534,6 +534,80 @@ func lenCmp(g *Fn, be *ast.BinaryExpr, op token.Token, prov string, val string) 
 	return v == val && g.Prov(call.Args[0]) == prov
 }
 
+// lenBounds derives, from the comparison facts, the interval the value of provenance lenProv
+// (a len(...) or a local holding it) is known to lie in; hi == -1 means no upper bound.
+func lenBounds(g *Fn, fs *FactSet, lenProv string) (lo, hi int64) {
+	lo, hi = 0, -1
+	tighten := func(op token.Token, k int64) {
+		switch op {
+		case token.EQL:
+			if k > lo {
+				lo = k
+			}
+			if hi < 0 || k < hi {
+				hi = k
+			}
+		case token.LSS:
+			if hi < 0 || k-1 < hi {
+				hi = k - 1
+			}
+		case token.LEQ:
+			if hi < 0 || k < hi {
+				hi = k
+			}
+		case token.GTR:
+			if k+1 > lo {
+				lo = k + 1
+			}
+		case token.GEQ:
+			if k > lo {
+				lo = k
+			}
+		case token.NEQ:
+			if k == lo {
+				lo = k + 1
+			}
+		}
+	}
+	neg := map[token.Token]token.Token{token.EQL: token.NEQ, token.NEQ: token.EQL, token.LSS: token.GEQ, token.GEQ: token.LSS, token.GTR: token.LEQ, token.LEQ: token.GTR}
+	mirror := map[token.Token]token.Token{token.EQL: token.EQL, token.NEQ: token.NEQ, token.LSS: token.GTR, token.GTR: token.LSS, token.LEQ: token.GEQ, token.GEQ: token.LEQ}
+	for pass := 0; pass < 2; pass++ {
+		fs.Cmp(func(e, tag ast.Expr, truth bool, fa *Fact) bool {
+			be, ok := ast.Unparen(e).(*ast.BinaryExpr)
+			if !ok || tag != nil {
+				return false
+			}
+			op, isCmp := be.Op, neg[be.Op] != 0
+			if !isCmp {
+				return false
+			}
+			x, y := be.X, be.Y
+			fg := g.enclosing(be)
+			if fg.Prov(y) == lenProv {
+				x, y = y, x
+				op = mirror[op]
+			}
+			if fg.Prov(x) != lenProv {
+				return false
+			}
+			v, ok := fg.ConstVal(y)
+			if !ok {
+				return false
+			}
+			var k int64
+			if _, err := fmt.Sscanf(v, "%d", &k); err != nil {
+				return false
+			}
+			if !truth {
+				op = neg[op]
+			}
+			tighten(op, k)
+			return false
+		})
+	}
+	return lo, hi
+}
+
 func runC26(c *Ctx) {
 	pt := srvFn(c, "PublishTunnel")
 	const pToken = "call:tun/server.extractAuthenticated()#0"
@@ -552,8 +626,14 @@ func runC26(c *Ctx) {
 		g := pt.enclosing(put)
 		requireAt(c, "publish-gate", "PublishTunnel#route-Put", pt, put, "a route is stored only for an authenticated client that holds the lease and owns the hostname, for 1..NumRedundantLinks distinct servers",
 			reqCallOK(authKeys...),
-			factReq{"len(requested) <= NumRedundantLinks", cmpFalse(func(g *Fn, be *ast.BinaryExpr) bool { return lenCmp(g, be, token.GTR, pReq, "3") })},
-			factReq{"len(requested) >= 1", cmpFalse(func(g *Fn, be *ast.BinaryExpr) bool { return lenCmp(g, be, token.LSS, pReq, "1") })},
+			factReq{"len(requested) <= NumRedundantLinks", func(g *Fn, fs *FactSet) bool {
+				_, hi := lenBounds(g, fs, "builtin:len("+pReq+")")
+				return hi >= 0 && hi <= 3
+			}},
+			factReq{"len(requested) >= 1", func(g *Fn, fs *FactSet) bool {
+				lo, _ := lenBounds(g, fs, "builtin:len("+pReq+")")
+				return lo >= 1
+			}},
 			reqCallOK("*.Acquire"), reqCallOK("*.PrefixContains"), ownerTrue)
 		// key and value provenance
 		keyProv := g.Prov(put.Args[1])
@@ -561,12 +641,10 @@ func runC26(c *Ctx) {
 	}
 	for _, call := range pt.CallsTo(true, "spec/tun.RoutingKey") {
 		g := pt.enclosing(call)
-		okSlot := false
-		if be, ok := ast.Unparen(call.Args[1]).(*ast.BinaryExpr); ok && be.Op == token.ADD {
-			v, _ := g.ConstVal(be.Y)
-			// index variable of a range over the destinations (one per requested server)
-			okSlot = v == "1" && strings.HasSuffix(g.Prov(be.X), "promise.All()#0#0")
-		}
+		// index variable of a range over the destinations (one per requested server), plus one
+		// (written in place or computed into a local first)
+		slotProv := g.Prov(call.Args[1])
+		okSlot := strings.HasPrefix(slotProv, "(") && strings.HasSuffix(slotProv, "promise.All()#0#0+const:1)") && !strings.Contains(slotProv, "|")
 		c.Ob("publish-provenance", "PublishTunnel#RoutingKey(hostname, i+1)", call.Pos(), g.Prov(call.Args[0]) == pHost && okSlot, fmt.Sprintf("slot keys are (requested hostname, index+1) over the looked-up destinations; found (%s, %s)", g.Prov(call.Args[0]), g.Prov(call.Args[1])))
 	}
 	// bundle
@@ -639,15 +717,29 @@ func runC26(c *Ctx) {
 		if !ok {
 			return true
 		}
+		// the loop runs NumRedundantLinks times: over the constant, or over a slice made with
+		// that length
+		three := false
 		if v, ok := ua.ConstVal(rs.X); ok && v == "3" {
+			three = true
+		} else if sv := ua.varOf(rs.X); sv != nil && rs.Key != nil {
+			if defs := ua.defsOf(sv); len(defs) == 1 && defs[0].rhs != nil {
+				if mk, ok := ast.Unparen(defs[0].rhs).(*ast.CallExpr); ok && len(mk.Args) == 2 {
+					if id, ok := mk.Fun.(*ast.Ident); ok && id.Name == "make" {
+						if v, ok := ua.ConstVal(mk.Args[1]); ok && v == "3" {
+							three = true
+						}
+					}
+				}
+			}
+		}
+		if three && rs.Key != nil {
+			want := "(" + ua.Prov(rs.Key) + "+const:1)"
 			for _, call := range ua.CallsTo(true, "spec/tun.RoutingKey") {
 				if containsNode(rs.Body, call) {
 					g := ua.enclosing(call)
-					if be, ok := ast.Unparen(call.Args[1]).(*ast.BinaryExpr); ok && be.Op == token.ADD {
-						v, _ := g.ConstVal(be.Y)
-						if v == "1" && g.varOf(be.X) != nil && g.varOf(be.X) == ua.varOf(rs.Key) && g.Prov(call.Args[0]) == "param#2" {
-							okSlots = true
-						}
+					if g.Prov(call.Args[1]) == want && g.Prov(call.Args[0]) == "param#2" {
+						okSlots = true
 					}
 				}
 			}
